@@ -6,7 +6,7 @@ use molt::types::*;
 use std::process::Command;
 
 /// (script text, outcome kind, value)
-const BODIES: [(&str, &str, &str); 14] = [
+const BODIES: [(&str, &str, &str); 16] = [
     ("expr {1+2}", "ok", "3"),
     ("set tv 5", "ok", "5"),
     ("info exists tv", "ok", "0"),
@@ -21,6 +21,8 @@ const BODIES: [(&str, &str, &str); 14] = [
     ("return -code 7 x", "return", "x"),
     ("return -code error rboom", "return", "rboom"),
     ("set sv", "setup", "1"),
+    ("proc probecv {} {global cv; info exists cv}; probecv", "ok", "0"),
+    ("info exists sv", "setupvar", "1"),
 ];
 
 fn lst(parts: &[&str]) -> String {
@@ -51,7 +53,7 @@ pub fn gen(tier: &str, seed: u64) -> Gen {
         }
         cases.push(tl(vec![tl(tests.clone()), ts(&render(&tests))]));
     }
-    (cases, vec![("test scripts of 1-6 tests: both syntaxes, 14 body kinds (ok, error, return, break, continue, custom code), matching/mismatching expectations, malformed invocations, failing setup/cleanup".to_string(), n, false)])
+    (cases, vec![("test scripts of 1-6 tests: both syntaxes, 16 body kinds (ok, error, return, break, continue, custom code, dependence on this test's setup, isolation from earlier bodies, setups and cleanups), matching/mismatching expectations, malformed invocations, failing setup/cleanup".to_string(), n, false)])
 }
 
 fn helper(kind: i128, which: &str) -> String {
